@@ -1,11 +1,12 @@
 (* Model/Engines.v -- the uniform entry point used by the correspondence check:
    [run engine case] for the models, [oracle engine case observation] for the
    property oracles (Spec side).  Engine numbers are listed in tools/engines.py. *)
-From MV Require Import Base.Prelude Model.Topic Spec.SpecTopic Model.TopicOracle Model.EnginesV3 Model.EnginesV5.
+From MV Require Import Base.Prelude Model.Topic Spec.SpecTopic Model.TopicOracle Model.EnginesV3 Model.EnginesV5 Model.RespQueue Model.RespOracle.
 
 Definition run (e : N) (c : list (list N)) : list (list N) :=
   match e with
   | 1 => run_topic c
+  | 30 => run_respq c
   | _ => if (10 <=? e) && (e <? 20) then run_v3 e c
          else if (20 <=? e) && (e <? 30) then run_v5 e c
          else [[98]]
@@ -16,6 +17,7 @@ Definition run (e : N) (c : list (list N)) : list (list N) :=
 Definition oracle (e : N) (c : list (list N)) (o : list (list N)) : list (list N) :=
   match e with
   | 1 => oracle_topic c o
+  | 30 => oracle_respq c o
   | _ => if (10 <=? e) && (e <? 20) then oracle_v3 e c o
          else if (20 <=? e) && (e <? 30) then oracle_v5 e c o
          else [[98]]
